@@ -86,6 +86,38 @@ func genC05(r *Rng, tier string) *C05Scn {
 			}
 			name = c.Gens[0] + "/perturbed"
 		}
+		if i > 0 && r.Chance(0.12) && len(c.Inputs[0].Keys) > 2 {
+			// an almost identical sibling of input 0: same keys, options and stream
+			// length, ONE value (or one byte of one key) changed somewhere in the
+			// middle. "The new stream looks like the one I already hold" (length,
+			// head and tail, shape, counts all equal) must not be taken for "is".
+			base := &c.Inputs[0]
+			sp.Opt = base.Opt
+			sp.Keys = base.Keys
+			sp.ValIDs = nil
+			if base.ValIDs != nil {
+				sp.ValIDs = append([]int64{}, base.ValIDs...)
+				j := len(sp.ValIDs)/4 + r.Intn(len(sp.ValIDs)/2+1)
+				sp.ValIDs[j] ^= 1 << uint(r.Intn(7))
+				name = c.Gens[0] + "/one-value-changed"
+			} else {
+				j := len(base.Keys)/4 + r.Intn(len(base.Keys)/2+1)
+				if k := base.Keys[j]; len(k) > 0 {
+					b := append([]byte{}, k...)
+					b[len(b)-1] ^= 1 << uint(r.Intn(8))
+					set := map[string]bool{}
+					for _, kk := range base.Keys {
+						set[string(kk)] = true
+					}
+					if !set[string(b)] {
+						delete(set, string(k))
+						set[string(b)] = true
+						sp.Keys = sortUniq(set)
+					}
+				}
+				name = c.Gens[0] + "/one-key-byte-changed"
+			}
+		}
 		if i > 0 && r.Chance(0.15) {
 			sp.Keys, sp.ValIDs = nil, nil // the empty trie as a stream
 			name = "empty"
